@@ -111,6 +111,14 @@ def ios_text(ios, mod):
             objs.append("obj%d" % i)
         out.append("")
         body = " | ".join(objs)
+    elif getattr(ios, "composed", 0) and len(ios.rows) >= 2:
+        # the set is the union of two or three named sets
+        k = min(ios.composed, len(ios.rows))
+        parts = [ios.rows[i::k] for i in range(k)]
+        for i, part in enumerate(parts):
+            out.append("FT%s FS ::= { %s }" % ("abc"[i], " | ".join("{ %s IDENTIFIED BY %s }" % (tn, idtext(ios, idv)) for idv, tn in part)))
+        out.append("")
+        body = " | ".join("FT%s" % "abc"[i] for i in range(k))
     else:
         body = " | ".join("{ %s IDENTIFIED BY %s }" % (tn, idtext(ios, idv)) for idv, tn in ios.rows)
     out.append("FT FS ::= { %s%s }" % (body, ", ..." if ios.ext_set else ""))
@@ -215,6 +223,15 @@ def run(tier, seed):
         if r2.random() < 0.4:
             # a second object with the type of an earlier one: the rows share the member of the generated union
             ios.rows.append((newid(), r2.choice(ios.rows)[1]))
+        ios.composed = r2.choice([0, 0, 2, 3]) if not ios.via_objects else 0
+        ios.blob = r2.random() < 0.3
+        if ios.blob:
+            # a row whose complete encoding is exactly n * 16K octets long (and one octet either side)
+            ios.rows.append((newid(), "BL"))
+            rwtext += "BL ::= OCTET STRING\n\n"
+            t_ = Type("OCTET STRING")
+            gen._set_module(t_, mod)
+            mod.add("BL", t_)
         text = text.rstrip()[:-3] + rwtext + ios_text(ios, mod) + "\nEND\n"
         d = os.path.join(root, "m%d" % i)
         os.makedirs(d, exist_ok=True)
@@ -255,6 +272,10 @@ def run(tier, seed):
         for idv, tn in ios.rows:
             if tn == "RW":
                 allvals[tn] = [{"n": v} for v in (0, -1, 127, 300, -70000, 1 << 40)][:nvals]
+                continue
+            if tn == "BL":
+                # UPER body = 2 length octets + data below 16K; 3 + data from 16K on
+                allvals[tn] = [bytes((i * 5 + 1) & 0xff for i in range(n_)) for n_ in ((16382, 16381, 32765) if quick else (16382, 16381, 16383, 32765, 32764, 49148))]
                 continue
             allvals[tn] = g.values(mod.types[tn], nvals)
 
